@@ -485,7 +485,7 @@ def run(seed, tier, prop="C12"):
     res["known_hits"] = dict(fnd.hits)
     res["steps"] = len(records) * (1 + K)
     res["states"] = sorted(w0.state_sigs)
-    if seed % 97 == 0 or not res["ok"]:
+    if (seed % 97 == 0 or (seed & 0xFFFFF) < 2) or not res["ok"]:
         res["sample"] = {"seed": int(seed), "config": {k: v for k, v in cfg.items() if k != "weights"},
                          "ops": [r["op"] + ":" + str(r.get("cls") or r.get("how") or r.get("which") or r.get("name") or "") for r in records],
                          "root_index_arrays": [r_["_tw"].get("idx") for r_ in (recs_k if 'recs_k' in dir() else []) if r_["op"] == "root"]}
